@@ -800,9 +800,10 @@ Theorem registry_roundtrip hs : Forall hdr_ok hs -> read_registry (pack_registry
 Proof.
   intros Hok. unfold read_registry. rewrite split_registry_rt by (rewrite pack_registry_length; lia).
   rewrite map_map. apply map_ext_in. intros h Hin. rewrite Forall_forall in Hok. specialize (Hok h Hin).
-  pose proof (header_roundtrip h [] Hok) as E. rewrite app_nil_r in E. unfold unpack_hdr in E.
-  unfold hdr3. destruct h as [c l rl e1 e2 p]; cbn [hb_len hb_ext1 hb_ext2] in *. inversion E as [[Ec El Er E1 E2 Ep]].
-  rewrite El, E1, E2. rewrite El, E1, E2. reflexivity.
+  pose proof (header_roundtrip h [] Hok) as E. rewrite app_nil_r in E.
+  assert (El := f_equal hb_len E). assert (E1 := f_equal hb_ext1 E). assert (E2 := f_equal hb_ext2 E).
+  unfold unpack_hdr in El, E1, E2. cbn [hb_len hb_ext1 hb_ext2] in El, E1, E2.
+  unfold hdr3. rewrite El, E1, E2. reflexivity.
 Qed.
 
 Lemma skipn_registry : forall i hs, skipn (i * 33) (pack_registry hs) = pack_registry (skipn i hs).
@@ -822,7 +823,7 @@ Proof.
   destruct (Nat.ltb_spec (33 * length hs) ((i + 1) * 33)); [lia|].
   rewrite skipn_registry.
   assert (Hs : exists r, skipn i hs = h :: r).
-  { clear Hi. revert hs Hn. induction i as [|i IH]; intros [|a l] Hn; try discriminate; cbn in *.
+  { clear - Hn. revert hs Hn. induction i as [|i IH]; intros [|a l] Hn; try discriminate; cbn in *.
     - inversion Hn; subst. eexists; reflexivity.
     - apply IH. exact Hn. }
   destruct Hs as [r Hs]. rewrite Hs. unfold pack_registry. cbn [flat_map].
